@@ -143,13 +143,19 @@ def collect(ctx, props, plans, design=(), report_deaths=False, me=1):
     # a divergence must reproduce when the same behaviour is replayed again (timing must never decide a verdict)
     if mismatches:
         confirmed, flaky = [], 0
-        for m in mismatches:
-            base = len(run.records)
-            nd = len(run.deaths)
-            run.replay([m["_full"]])
-            again = [r for r in run.records[base:] if r.get("kind") == "mismatch" and r["step"] == m["_step"]]
-            died = len(run.deaths) > nd
-            if again or died or m["diff"] and "unexpected process death" in m["diff"][0]:
+        # one batch, at most CONFIRM_CAP of them (a change that makes hundreds of behaviours diverge needs no more than that
+        # for a verdict; what is not confirmed is not reported)
+        CONFIRM_CAP = 40
+        if len(mismatches) > CONFIRM_CAP:
+            ctx.log("%d divergences; confirming the first %d by a second replay, the rest are not reported" % (len(mismatches), CONFIRM_CAP))
+            del mismatches[CONFIRM_CAP:]
+        base = len(run.records)
+        nd = len(run.deaths)
+        run.replay([m["_full"] for m in mismatches], parallel=1)
+        again = {(r["beh"], r["step"]) for r in run.records[base:] if r.get("kind") == "mismatch"}
+        died = {d["beh"] for d in run.deaths[nd:]}
+        for n, m in enumerate(mismatches):
+            if (n, m["_step"]) in again or n in died or m["diff"] and "unexpected process death" in m["diff"][0]:
                 confirmed.append(m)
             else:
                 flaky += 1
